@@ -532,7 +532,7 @@ def timing_blocks(fblocks):
 # ------------------------------------------------------------------ the signal
 
 class Model:
-    __slots__ = ('edges', 'ranges', 'zero_seq', 'ambiguous_pop', 'popped', 'adjustments', 'npulses', 'preds', 't_end')
+    __slots__ = ('edges', 'ranges', 'zero_seq', 'ambiguous_pop', 'popped', 'adjustments', 'npulses', 'preds', 't_end', 'tail_block')
 
 def used_bits_pulses(tb):
     """(pulses the used bits of the last byte specify, pulses a proportional cut of the whole last byte would keep)."""
@@ -594,6 +594,7 @@ def model_edges(tbs, first_edge=0, polarity=0, quirks=()):
     ranges = []
     tail_index = None
     tail_time = None
+    tail_block = None
     adjustments = 0
     npulses = 0
 
@@ -668,6 +669,7 @@ def model_edges(tbs, first_edge=0, polarity=0, quirks=()):
                 t_emit = t
                 tail_index = len(edges) - 1
                 tail_time = t
+                tail_block = i
                 rg['tail'] = True
                 npulses += 1
         rg['last'] = len(edges) - 1
@@ -682,20 +684,21 @@ def model_edges(tbs, first_edge=0, polarity=0, quirks=()):
     m = Model()
     m.popped = False
     m.ambiguous_pop = False
-    if tail_index is not None:
-        if tail_index == len(edges) - 1:
-            edges.pop()
-            m.popped = True
-            top = len(edges) - 1
-            for rg in ranges:
-                for k in ('first', 'dstart', 'dend', 'last'):
-                    if rg[k] is not None and rg[k] > top:
-                        rg[k] = top
-                        if k == 'last':
-                            rg['tail'] = False
-        elif edges[-1] == tail_time:
-            # the tape ends with zero-length pulses at the very instant the last tail pulse ends: which edge goes is not defined
-            m.ambiguous_pop = True
+    if tail_time is not None and t_emit == tail_time:
+        # nothing but zero-length bit pulses (which are merged away) follows the end of the last tail pulse:
+        # that edge is the last one on the tape and is not played
+        j = len(edges) - 1
+        while edges[j] != tail_time:
+            j -= 1
+        del edges[j]
+        m.popped = True
+        top = len(edges) - 1
+        for rg in ranges:
+            for k in ('first', 'dstart', 'dend', 'last'):
+                if rg[k] is not None and rg[k] > top:
+                    rg[k] = top
+                    if k == 'last':
+                        rg['tail'] = False
     m.edges = edges
     m.ranges = ranges
     m.zero_seq = any(tb.has_zero_seq() for tb in tbs)
@@ -703,6 +706,7 @@ def model_edges(tbs, first_edge=0, polarity=0, quirks=()):
     m.npulses = npulses
     m.preds = preds
     m.t_end = t
+    m.tail_block = tail_block if m.popped else None
     return m
 
 def canonical(edges):
